@@ -331,6 +331,8 @@ func c20Systematic(tier string) []*Case {
 		{"rt-unbounded-recursion", "rt-recursion", KwFun + " f() { " + KwReturn + " f(); } f();"},
 		{"rt-unbounded-mutual-recursion", "rt-recursion", KwFun + " a(n) { " + KwReturn + " b(n + 1); } " + KwFun + " b(n) { " + KwReturn + " a(n) + 1; } a(0);"},
 		{"rt-unbounded-recursion-in-args", "rt-recursion", KwFun + " g(x) { " + KwReturn + " g([x, g(x)]); } " + KwPrint + " g(1);"},
+		{"rt-unbounded-recursion-heavy-frames", "rt-recursion", KwFun + " f(n) { " + KwIf + " (n >= 0) { " + KwIf + " (" + KwTrue + ") { { " + KwReturn + " [1, [2, {a: 1 + (2 * (3 + (4 * (5 + f(n + 1)))))}]]; } } } } f(0);"},
+		{"rt-unbounded-recursion-nested-parens", "rt-recursion", KwFun + " p(n) { " + KwReturn + " " + strings.Repeat("(", 120) + "p(n + 1)" + strings.Repeat(")", 120) + "; } p(0);"},
 	} {
 		cfg := replCfg(c20SessionStdin([]string{l.text, KwPrint + " 1 + 2;"}))
 		cfg.Budget = 400000000
